@@ -79,7 +79,7 @@ CHECKS = {
    level="model_checking",
    text="Client.Do is executed against scripts of up to 2 (quick)/3 (thorough) server packets drawn from {Data, Totals (0/1 rows or the empty end marker), Progress, Profile, TableColumns, Log, ProfileEvents, Exception (chain depth 1..3 quick / 1..4 thorough), EndOfStream} with all field values, cells and exception codes symbolic, with and without OnResult and with a failing callback at a chosen invocation. Assertions: the callback trace (results with the bound column's contents at callback time, progress, profile, logs, profile events) equals the projection of the script in order; Do returns nil iff the script ended with EndOfStream and no callback failed (incl. the no-OnResult single-block rule); an exception is recovered by errors.As with code/name/message/stack/chain and every code of the chain matches errors.Is.",
    ref="DESIGN.md §4 C03",
-   note="bounds: <=2/3 packets, one result column (UInt64), 1-row telemetry blocks, integer fields 7 bit, revisions {54460, 54453, 54419, 51902} in quick (one symbolic revision >= 50264 in thorough), compression off, plus one run of the 2-packet scripts with connection compression enabled (Data/Totals in checksummed frames of method None, city.CH128 uninterpreted; telemetry blocks unframed), instrumentation off; non-preemptive schedules only"),
+   note="bounds: <=2/3 packets, one result column (UInt64), 1-row telemetry blocks, integer fields 7 bit, revisions {54460, 54453, 54419, 51902} in quick (one symbolic revision >= 50264 in thorough), compression off, plus one run of the 2-packet scripts with connection compression enabled (Data/Totals in checksummed frames of method None, city.CH128 uninterpreted; telemetry blocks unframed; ServerCode.Compressible asserted to agree with that framing), instrumentation off; non-preemptive schedules only"),
  "C12": dict(
    tech="bounded symbolic execution of the real go/ssa code (own engine gosym, paths decided by z3); on every symbolic path a happens-before (vector clock) relation over the modelled synchronisation operations is an implicit assertion: no two conflicting accesses of library code unordered; reported races are replayed natively under the Go race detector",
    level="model_checking",
